@@ -333,22 +333,22 @@ def _pointee_written(m):
 def run(ck, progs):
     describe(ck)
     for cfg, prog in progs.items():
-        n = r05a(ck, prog)
+        n = ck.attempt(r05a, ck, prog)
         ck.floor("R05a", n, 12, "char-indexed small-table subscripts")
-        r05b(ck, prog)
-        r05c(ck, prog)
-        r05d(ck, prog)
-        n = r05e(ck, prog)
+        ck.attempt(r05b, ck, prog)
+        ck.attempt(r05c, ck, prog)
+        ck.attempt(r05d, ck, prog)
+        n = ck.attempt(r05e, ck, prog)
         ck.floor("R05e", n, 20, "NULL-tested local pointers")
-        r05g(ck, prog)
-        n = r05i(ck, prog)
+        ck.attempt(r05g, ck, prog)
+        n = ck.attempt(r05i, ck, prog)
         ck.floor("R05i", n, 20, "out-parameter publications")
-        r05f(ck, prog)
-        n = r05l(ck, prog)
+        ck.attempt(r05f, ck, prog)
+        n = ck.attempt(r05l, ck, prog)
         ck.floor("R05l", n, 120, "decided heap accesses")
-        n = r05j(ck, prog)
+        n = ck.attempt(r05j, ck, prog)
         ck.floor("R05j", n, 12, "counted appends")
-        n = r05k(ck, prog)
+        n = ck.attempt(r05k, ck, prog)
     from ..controls import run_control
     run_control(ck, ck.work, "R05j", "c05.c", lambda c, p: r05j(c, p, table=[("gbuf", ("items",), "n", "cap")]), "r05j")
     run_control(ck, ck.work, "R05k", "c05.c", r05k, "r05k")
@@ -653,8 +653,8 @@ def _dropped(call):
 
 
 def r05d(ck, prog):
-    st = r05d_calls(ck, prog)
-    r05d_main(ck, prog)
+    st = ck.attempt(r05d_calls, ck, prog)
+    ck.attempt(r05d_main, ck, prog)
     return st
 
 
